@@ -192,12 +192,33 @@ def run(rep, info, model, tier, seed):
                     if server_close and k <= 6:
                         sc["_server_close_after_client"] = [[] if server_close[0] is None else [server_close[0]], server_close[1]]
                     small.append(sc)
-    for sc in scs + small:
+    # what an EARLIER connection of the same process received must not matter: a Close frame whose reason stops inside a
+    # multi-byte character, is not UTF-8, is one byte long or carries a reserved code fails THAT connection only
+    poisons = [ref6455.close_payload(1000, b"\xe2\x82"), ref6455.close_payload(1000, b"ok\xf0\x9f\x98"), ref6455.close_payload(1001, b"\xc3"),
+               ref6455.close_payload(1000, b"\xf0\x9f"), ref6455.close_payload(1000, b"\xff"), b"\x03", ref6455.close_payload(1005, b"")]
+    after = []
+    for pz in poisons:
+        prev = dict(cfg=simnet.default_cfg(close_timeout=None), steps=[("data", 10, scen.HANDSHAKE + E(8, pz)), ("eof", 10)], app={},
+                    keys=[b"\x02\x02\x02\x02"] * 4, key16=scen.KEY16)
+        for server_close in ((1000, "bye".encode()), (4000, "\u20acuro".encode("utf-8")), (1001, b"x")):
+            for k in (None, 2, 3):
+                steps = [("data", 10, scen.HANDSHAKE + E(1, b"one")), ("data", 10, E(8, ref6455.close_payload(*server_close))), ("eof", 10)]
+                app = {} if k is None else {k: [("close", 1000, b"done")]}
+                sc = dict(cfg=simnet.default_cfg(close_timeout=None), steps=steps, app=app, keys=[b"\x01\x01\x01\x01"] * 8, key16=scen.KEY16,
+                          previously=[prev])
+                sc["_eof_after"] = True
+                sc["_mode"] = "after-bad-close"
+                if k is not None:
+                    sc["_server_close_after_client"] = [[server_close[0]], server_close[1]]
+                after.append(sc)
+    for sc in scs + small + after:
         rep.count("mode", sc["_mode"])
     fam.run_family(rep, model, "C08:close-histories", scs, close_checks, project=lambda t: t,
                    rule="random histories: data/control before and between, application close() at any event (incl. Connected, Ready), server Close with every valid code / empty payload / 123-byte reason, application sends at any event; oracle judges the wire (decoded by the harness' own RFC 6455 decoder) and the events")
     fam.run_family(rep, model, "C08:small-orders", small, close_checks, project=lambda t: t,
                    rule="all combinations: application close at event 0..6 x server close {absent, 1000, empty, 4999+max reason} x application send at event {none,2..5} x close arguments")
+    fam.run_family(rep, model, "C08:after-a-bad-close", after, close_checks, project=lambda t: t,
+                   rule="the same closing handshakes (server first, client first at Ready or later; non-empty reasons) on a connection made AFTER another connection of the same process received a malformed Close (reason cut inside a 2-, 3- or 4-byte character, invalid byte, one-byte payload, reserved code): the earlier connection must not influence this one")
     rep.exhaustive["C08 small orders"] = True
     if not proof_ok and not rep.violations:
         rep.broken("proof obligation props/C08.v no longer checks: %s" % (rep.coq_failure,))
